@@ -90,6 +90,14 @@ pub struct Deserializer<'de> {
 
 impl<'de> Deserializer<'de> {
     pub(crate) fn new(fields: &[Field], views: Vec<View<'de>>) -> Result<Self> {
+        if fields.len() != views.len() {
+            fail!(
+                "different number of fields ({}) and arrays ({})",
+                fields.len(),
+                views.len()
+            );
+        }
+
         let len = match views.first() {
             Some(view) => view.len()?,
             None => 0,
